@@ -409,6 +409,8 @@ static int SE_REQUIRE_PROGRESS; /* C10: a call with end_of_stream, all input off
 /* choice = ((ia * NDA_OUT + oa) * 3 + flush) * 2 + eos_timing */
 #define NDCHOICE (NDA_IN * NDA_OUT * 3 * 2)
 
+static struct isal_hufftables *SE_HUFFTABLES; /* optional: table installed right after init (type SE_HUFF_TYPE) */
+static int SE_HUFF_TYPE;
 static void def_reset(int flush_budget)
 {
 	isal_deflate_init(DST);
@@ -416,7 +418,10 @@ static void def_reset(int flush_budget)
 	DST->level_buf = DLEVEL ? DLB : NULL;
 	DST->level_buf_size = DLEVEL ? DLBS : 0;
 	DST->gzip_flag = DGZ;
+	if (SE_HUFF_TYPE)
+		isal_deflate_set_hufftables(DST, SE_HUFFTABLES, SE_HUFF_TYPE);
 	memset(&DCUR, 0, offsetof(struct dcur, out));
+	se_contig_src = NULL; /* the contiguous copy is keyed by pointer: refresh it per run (callers refill the same buffer with new data) */
 	DCUR.flush_budget = flush_budget;
 	DCUR.zero_budget = 2;
 }
@@ -493,8 +498,8 @@ static int def_call(int ci, int co, int flush, int eos_late, const struct ex_mod
 	}
 	uint8_t *in, *out = g_alloc(cap, G_END);
 	if (SE_CONTIG) {
-		if (se_contig_src != DIN || se_contig_cap < DINLEN) {
-			se_contig_cap = DINLEN + 1;
+		if (!se_contig_buf || se_contig_cap < DINLEN + 1) {
+			se_contig_cap = DINLEN + 1 > 70001 ? DINLEN + 1 : 70001;
 			se_contig_buf = g_persist(se_contig_cap, G_END);
 			se_contig_src = NULL;
 		}
